@@ -62,6 +62,20 @@ def check_scatter(ck, rule: str, repo, fi: FunctionInfo) -> int:
         if store_sig is None:
             continue
         n += 1
+        # a scatter inside a loop must not be skippable by a `break` placed before it:
+        # the remaining buckets/sides would silently keep their default values
+        par = getattr(s, "_parent", None)
+        loop = None
+        while par is not None and not isinstance(par, (ast.FunctionDef, ast.AsyncFunctionDef, ast.Lambda)):
+            if isinstance(par, (ast.For, ast.While)):
+                loop = par
+                break
+            par = getattr(par, "_parent", None)
+        if loop is not None:
+            brk = [b for b in ast.walk(loop) if isinstance(b, ast.Break) and b.lineno < s.lineno]
+            if brk:
+                ck.violated(rule, fi, brk[0], f"`break` before the scatter {src_of(s)[:50]!r} in the same loop: once one bucket/side is empty or missing, the remaining ones are never processed, so a row's output depends on which other rows are in the batch")
+                continue
         bad = [(sigs, a) for sigs, a in vs if sigs != {store_sig}]
         if not bad:
             ck.holds(rule, fi, s, f"scatter index {src_of(idx)} is the very mask the value was gathered with")
